@@ -16,6 +16,10 @@ pub struct Case {
     pub xs: Vec<X>,
     /// reset() is called before feeding xs[i] for each i listed
     pub resets: Vec<usize>,
+    /// 0 or 1: compare at every step; k > 1: compare while t <= n+2, at every k-th step and at the end
+    /// (used by the fuzz decoder for large periods, where the O(n) reference per step dominates)
+    #[serde(default)]
+    pub stride: usize,
 }
 
 pub fn check(c: &Case, ctx: &mut Ctx) -> Result<(), Failure> {
@@ -51,6 +55,9 @@ pub fn check(c: &Case, ctx: &mut Ctx) -> Result<(), Failure> {
         }
         if t >= n + 2 {
             reached = true;
+        }
+        if c.stride > 1 && t > n + 2 && i % c.stride != 0 && i + 1 != c.xs.len() {
+            continue;
         }
         let tol = tau(t) * big + tol_floor(w.len());
         match k {
@@ -175,7 +182,7 @@ fn strategy(tier: Tier) -> BoxedStrategy<Case> {
             let mut resets: Vec<usize> = rs.iter().map(|u| ((u * len as f64) as usize).min(len.saturating_sub(1))).collect();
             resets.sort();
             resets.dedup();
-            Case { cfg, xs: xs(&s.vals), resets }
+            Case { cfg, xs: xs(&s.vals), resets, stride: 0 }
         })
         .boxed()
 }
@@ -183,7 +190,7 @@ fn strategy(tier: Tier) -> BoxedStrategy<Case> {
 fn long_strategy(cap: usize) -> BoxedStrategy<Case> {
     cfg_among(&KINDS, cap, multiplier_any)
         .prop_flat_map(|cfg| (Just(cfg), multi_stream(Domain::AnySign, 10_000, 20_000)))
-        .prop_map(|(cfg, s)| Case { cfg, xs: xs(&s.vals), resets: vec![] })
+        .prop_map(|(cfg, s)| Case { cfg, xs: xs(&s.vals), resets: vec![], stride: 0 })
         .boxed()
 }
 
@@ -206,7 +213,7 @@ pub fn run(g: &mut Global) {
             let n = (rest % 5) as usize + 1;
             let (kind, m) = ECFG[(rest / 5) as usize];
             let d = digits(seq, 6, depth);
-            Case { cfg: Cfg { kind, p: vec![n], m: X(m) }, xs: d.iter().map(|&j| X(ALPHA[j])).collect(), resets: vec![] }
+            Case { cfg: Cfg { kind, p: vec![n], m: X(m) }, xs: d.iter().map(|&j| X(ALPHA[j])).collect(), resets: vec![], stride: 0 }
         },
         &check,
     );
@@ -233,4 +240,7 @@ pub fn run(g: &mut Global) {
         },
         &|c, ctx| crate::props::c13::check_as(c, ctx, "C01", true),
     );
+    if g.tier == Tier::Thorough {
+        g.fuzz_stage("ops_value", Some(0), 600_000, "random", &|b| crate::fuzzdec::decode_c01(b), &check);
+    }
 }
